@@ -594,7 +594,7 @@ def replay_sequence(item):
             fam = _fam(step, extra)
             where = f"step {i} {step['act']}({fam}) in state {state}"
             if verdict == "skipped":
-                stats["skipped"].append((step.get("ep", {}).get("id"), out))
+                stats["skipped"].append(((extra.get("ep") or step.get("ep") or {}).get("id") or step["act"], out))
             # ---- look the observation up among the transitions of the specification
             def match(graph):
                 res = []
